@@ -1,10 +1,12 @@
 import TracklibVerif.Lemmas.FeaturesCall
+import TracklibVerif.Lemmas.FeaturesKeep
 import TracklibVerif.Props.C01World
 /-! # C01 — the list forms of `Track.operate`
 
 Property theorems only. `Model/FeaturesCall.lean`: the list form of a void operator family is one `execute` per position
 (`stepList`), the list form of a value-returning unary / binary operator raises TypeError before touching anything
-(`Call.refused`). `call` is one call of the API in any of these forms. -/
+(`Call.refused`). `call` is one call of the API in any of these forms. L5 (`call_keeps_listed`, lemmas in
+`Lemmas/FeaturesKeep.lean`): no call but the deleting ones unlists a feature. -/
 set_option linter.unusedSectionVars false
 namespace TV.C01
 open TV.Features
@@ -104,5 +106,35 @@ example : ((call iops (.list [.unaryVoid .integrator "a" (some "c"), .unaryVoid 
       (runOps iops [.create "a" (.list [1, 2, 3])] t0)).1.toOption.isSome,
     (call iops (.list [.unaryVoid .integrator "a" (some "c"), .unaryVoid .integrator "zz" (some "d")])
       (runOps iops [.create "a" (.list [1, 2, 3])] t0)).2.rows) = (false, [[1, 0, 0], [2, 2, 0], [3, 5, 0]]) := by decide +kernel
+
+/-- L5 (nothing disappears behind the caller's back): a call in any form none of whose positions is a deleting call —
+`removeAnalyticalFeature` / `'#DELETE'`, `computeAbsCurv` (which drops its intermediate `ds`), `operate(str)` (re-assignment is
+get / remove / create, and the `#` names are purged) — unlists NOTHING, whether it returns or raises: create, update, bracket
+assignment, cell writes, addAnalyticalFeature, every operator object (an operator whose arithmetic fails mid-way — `sqrt` of a
+negative, `1/0` — with an output feature that already exists included), `estimate_speed`, `segmentation`, the list forms. Every
+feature listed before the call is listed after it (and, the table being aligned by L1, reads as a full column). This is the
+statement the seeded change C01-9 broke (`Apply.execute` removing its output column when the cell function raises). For the three
+deleting calls the names they do not designate are covered by `call_frame`; that `a = <expr>` relists `a` is open. -/
+theorem call_keeps_listed (o : Ops V) (c : Call V) (st : St V) (h : Inv n st) (hc : c.deletes = false) (m : String)
+    (hm : m ∈ names st) : m ∈ names (call o c st).2 := by
+  obtain ⟨_, href⟩ := call_refines o c st h
+  have hk := keeps_call o c hc (abs st) m
+  rw [href] at hk
+  simp only at hk
+  rw [← names_abs] at hm ⊢
+  unfold anames at hm ⊢
+  rw [← lookup_isSome_iff] at hm ⊢
+  exact hk hm
+
+/-- `operate(Operator.SQRT, "a", "b")` with `b` listed and a negative value in `a`: the call raises (the hypothesis of L5 holds:
+it is not a deleting call), `b` stays listed, the table stays aligned and `b` still reads what was last written -/
+example : Call.deletes (.one (.fnVoid "SQRT" "a" (some "b")) : Call Int) = false := rfl
+example : ((call iops (.one (.fnVoid "SQRT" "a" (some "b")))
+      (runOps iops [.create "a" (.list [4, -1, 9]), .create "b" (.list [1, 2, 3])] t0)).1.toOption.isSome,
+    (call iops (.one (.fnVoid "SQRT" "a" (some "b")))
+      (runOps iops [.create "a" (.list [4, -1, 9]), .create "b" (.list [1, 2, 3])] t0)).2.dico,
+    (call iops (.one (.fnVoid "SQRT" "a" (some "b")))
+      (runOps iops [.create "a" (.list [4, -1, 9]), .create "b" (.list [1, 2, 3])] t0)).2.rows) =
+    (false, [("a", 0), ("b", 1)], [[4, 1], [-1, 2], [9, 3]]) := by decide +kernel
 
 end TV.C01
